@@ -271,6 +271,22 @@ def run(ctx):
                 else:
                     r2.check(out[0] == "return", f"validate_entity_saveto[{desc}]", "valid save_to is accepted", vs.loc(),
                              why_fail=f"raised {getattr(out[1], 'exc_name', '')}")
+    # concrete row types: only begin-group / begin-repeat rows are containers; a question whose type (or list name) merely
+    # contains the word is an ordinary question and may carry save_to
+    SAVETO_TYPES = [("text", True), ("integer", True), ("select_one repeat_reasons", True), ("select_one group_list", True),
+                    ("select_multiple regroup", True), ("select_one_from_file groups.csv", True), ("calculate", True),
+                    ("begin group", False), ("begin_group", False), ("begin repeat", False), ("begin_repeat", False)]
+    itc = ctx.interp("C19.R2", hooks={"fnname:is_xml_tag": lambda interp, args, kwargs, node: True})
+    for typ, accept in SAVETO_TYPES:
+        itc.reset([])
+        row = {"type": typ, "name": "q", "bind": {"entities:saveto": "prop"}}
+        try:
+            itc.call_function(vs, [row, 4, False, {"name": "entity"}], {}, None, vs.node)
+            got = "accepted"
+        except Raised as r:
+            got = "rejected" if "PyXFormError" in r.mro else f"raised {r.exc_name}"
+        r2.check(got == ("accepted" if accept else "rejected"), f"validate_entity_saveto[type={typ!r}]",
+                 "a question row with save_to is accepted; a begin group / repeat row is rejected", vs.loc(), why_fail=f"save_to on a `{typ}` row is {got}")
     # empty save_to returns early without demanding a declaration
     it.reset([])
     try:
